@@ -323,16 +323,16 @@ fn build_case<const W: usize>(kind: u8, ntlv: usize, l0: usize, l1: usize) {
         }
         assert!(it.next().is_none(), "no further TLVs");
     }
-    kani::cover!(back.is_ok() && ntlv == 2 && l0 == 0 && l1 == 4, "round trip with two TLVs, the first empty-valued");
+    kani::cover!(back.is_ok() && ntlv == 2 && l0 == 0, "round trip with two TLVs, the first empty-valued");
 }
 
 #[derive(Clone, Copy, PartialEq)]
 enum Region {
-    /// no trailing empty-valued TLV, all value lengths even (what 1588 allows minus the defect)
+    /// all value lengths even (IEEE 1588: lengthField is even; odd lengths are rejected by the parser by design)
     Main,
     /// last TLV has an empty value (lengthField 0), lengths even
     TrailingEmpty,
-    /// some value length odd (1588 requires even lengthField; the builder does not refuse it)
+    /// some value length odd: the builder does not refuse it, the parser rejects the result (not registered)
     OddLength,
 }
 
@@ -345,7 +345,7 @@ fn build_sym<const W: usize>(kind: u8, region: Region) {
     let odd = (ntlv >= 1 && l0 % 2 == 1) || (ntlv >= 2 && l1 % 2 == 1);
     let trailing_empty = (ntlv == 1 && l0 == 0) || (ntlv == 2 && l1 == 0);
     match region {
-        Region::Main => kani::assume(!odd && !trailing_empty),
+        Region::Main => kani::assume(!odd),
         Region::TrailingEmpty => kani::assume(!odd && trailing_empty),
         Region::OddLength => kani::assume(odd),
     }
@@ -371,10 +371,10 @@ build_harness!(c41_build_pdelay_resp_fu, 6, Region::Main);
 build_harness!(c41_build_announce, 7, Region::Main);
 build_harness!(c41_build_signaling, 8, Region::Main);
 build_harness!(c41_build_management, 9, Region::Main);
-// Expected to FAIL (known-finding candidates), Sync body:
-// a trailing TLV with an empty value is not parsed back;
-build_harness!(c41_build_kf_trailing_empty_tlv, 0, Region::TrailingEmpty);
-// odd-length TLV values are accepted by the builder but rejected by the parser (and trip a debug
-// assertion in `wire_size`).
+// Regression harness for the defect fixed in 24ae201 (a trailing TLV with an empty value was dropped
+// by `while buffer.len() > 4`): Sync body, last TLV empty-valued; fails on the pre-fix tree.
+build_harness!(c41_build_trailing_empty_tlv, 0, Region::TrailingEmpty);
+// Expected to FAIL, not registered: odd-length TLV values are accepted by the builder but rejected by
+// the parser (and trip a debug assertion in `wire_size`).
 build_harness!(c41_build_kf_odd_tlv_length, 0, Region::OddLength);
 
